@@ -204,7 +204,7 @@ func runC15(res *Result, rng *RNG, tier string, outDir string) {
 			}
 			// stable under serialization
 			bs, _ := tok.Serialize()
-			t2, err := biscuit.Unmarshal(bs)
+			t2, err := unmarshalOwned(bs)
 			if err != nil {
 				res.Violate("reload", "a library-built token does not unmarshal: "+err.Error(), rep)
 				return
